@@ -633,18 +633,24 @@ func runConfigGen(c *cctx, k int) {
 		}
 		d := describe(input)
 		c.step("config.Decode input=" + c.q(d) + " output=" + tdesc)
-		c.call("config.Decode", kv("input", d, "output", tdesc), func() error {
-			return config.Decode(input, target)
+		c.inputUnchanged("config.Decode", input, d, func() {
+			c.call("config.Decode", kv("input", d, "output", tdesc), func() error {
+				return config.Decode(input, target)
+			})
 		})
 		prefix := rng.PickStr("", "s", "ne", "nested", "N", "日", "\xff", strings.Repeat("p", 100), cfgKeys[rng.Intn(len(cfgKeys))])
 		c.step("config.Normalize / PrefixedBy prefix=" + c.q(prefix) + " input as above")
-		c.call("config.Normalize", kv("input", d), func() error {
-			_, err := config.Normalize(input)
-			return err
+		c.inputUnchanged("config.Normalize", input, d, func() {
+			c.call("config.Normalize", kv("input", d), func() error {
+				_, err := config.Normalize(input)
+				return err
+			})
 		})
-		c.call("config.PrefixedBy", kv("input", d, "prefix", prefix), func() error {
-			_, err := config.PrefixedBy(input, prefix)
-			return err
+		c.inputUnchanged("config.PrefixedBy", input, d, func() {
+			c.call("config.PrefixedBy", kv("input", d, "prefix", prefix), func() error {
+				_, err := config.PrefixedBy(input, prefix)
+				return err
+			})
 		})
 	}
 }
